@@ -32,23 +32,82 @@ func Compare(a, b any) int {
 
 	switch v := a.(type) {
 	case bool:
-		return compareBool(v, b.(bool))
+		if w, ok := b.(bool); ok {
+			return compareBool(v, w)
+		}
 	case int:
-		return compareInt(int64(v), int64(b.(int)))
+		if w, ok := b.(int); ok {
+			return compareInt(int64(v), int64(w))
+		}
 	case int64:
-		return compareInt(v, b.(int64))
+		if w, ok := b.(int64); ok {
+			return compareInt(v, w)
+		}
 	case float32:
-		return compareFloat(v, b.(float32))
+		if w, ok := b.(float32); ok {
+			return compareFloat(v, w)
+		}
 	case float64:
-		return compareFloat(v, b.(float64))
+		if w, ok := b.(float64); ok {
+			return compareFloat(v, w)
+		}
 	case time.Time:
-		return compareTime(v, b.(time.Time))
+		if w, ok := b.(time.Time); ok {
+			return compareTime(v, w)
+		}
 	case string:
-		return compareString(v, b.(string))
+		if w, ok := b.(string); ok {
+			return compareString(v, w)
+		}
 	case []byte:
-		return compareBytes(v, b.([]byte))
+		if w, ok := b.([]byte); ok {
+			return compareBytes(v, w)
+		}
 	default:
-		return 0
+		return compareInt(int64(typeRank(a)), int64(typeRank(b)))
+	}
+
+	// The two values have different types. This happens for fields of a dynamic type (JSON),
+	// where documents may hold a number, a string, a boolean, an object or an array.
+	// Numbers of different Go types are compared by value, everything else by a fixed rank
+	// of the types, so that the order is total and deterministic.
+	if x, ok := toFloat64(a); ok {
+		if y, ok := toFloat64(b); ok {
+			return compareFloat(x, y)
+		}
+	}
+	return compareInt(int64(typeRank(a)), int64(typeRank(b)))
+}
+
+func toFloat64(v any) (float64, bool) {
+	switch n := v.(type) {
+	case int:
+		return float64(n), true
+	case int64:
+		return float64(n), true
+	case float32:
+		return float64(n), true
+	case float64:
+		return n, true
+	}
+	return 0, false
+}
+
+// typeRank orders values of different types: bool < number < time < string < bytes < anything else.
+func typeRank(v any) int {
+	switch v.(type) {
+	case bool:
+		return 1
+	case int, int64, float32, float64:
+		return 2
+	case time.Time:
+		return 3
+	case string:
+		return 4
+	case []byte:
+		return 5
+	default:
+		return 6
 	}
 }
 
